@@ -45,6 +45,17 @@ Section Failover.
     | FDone _ => None
     end.
 
+  (* the same system with an errorFrom that does NOT ignore a report about a store that is no longer the active one
+     but always moves on from the reporting store: g.active = (i + 1) % len(g.stores)   (used only to show that the
+     [i != g.active] test matters) *)
+  Definition fstep_stale (s : fstate) (t : nat) : option fstate :=
+    let th := f_thr s t in
+    match f_pc th with
+    | F2 a k => Some {| f_active := (a + 1) mod n;
+                        f_thr := updf (f_thr s) t {| f_pc := F0 (S k); f_tried := f_tried th |} |}
+    | _ => fstep s t
+    end.
+
   Definition finit (a0 : nat) : fstate := {| f_active := a0; f_thr := fun _ => {| f_pc := F0 0; f_tried := [] |} |}.
 End Failover.
 
